@@ -287,11 +287,13 @@ Proof.
       - specialize (H4 eq_refl). split; [lia|]. rewrite Ht. discriminate.
       - specialize (H6 eq_refl). split; [lia|]. intros _. lia. }
     destruct Hn as [Hn4 Hn6].
-    unfold prec_of_pdu, pdu_flags, prefix_lengths_valid. rewrite !nthb_app_l by lia. split; [|split; reflexivity].
+    unfold prec_of_pdu, pdu_flags, prefix_lengths_valid, prefix_host_bits_zero. rewrite !nthb_app_l by lia.
     destruct (nthb p 1 =? c_IPV6_PREFIX) eqn:E6.
     + apply Z.eqb_eq in E6. specialize (Hn6 E6).
-      rewrite skipn_app_l, firstn_app_l, get32_app_l by (rewrite ?skipn_length; lia). reflexivity.
-    + rewrite skipn_app_l, firstn_app_l, get32_app_l by (rewrite ?skipn_length; lia). reflexivity.
+      rewrite skipn_app_l, firstn_app_l, get32_app_l by (rewrite ?skipn_length; lia).
+      split; [reflexivity|split; reflexivity].
+    + rewrite skipn_app_l, firstn_app_l, get32_app_l by (rewrite ?skipn_length; lia).
+      split; [reflexivity|split; reflexivity].
   - intros Ht. pose proof (pdu_ok_len p _ Hok Ht) as (_ & _ & H9 & _). specialize (H9 eq_refl).
     assert (Hn : (length p = 123)%nat) by (unfold zlen in H9; lia).
     unfold krec_of_pdu, pdu_flags. rewrite !nthb_app_l by lia.
@@ -319,7 +321,8 @@ Theorem stored_prefix_lengths (p : list byte) :
 Proof.
   intros Hb Hok Ht Hv. unfold prec_of_pdu.
   pose proof (nthb_ok p 9 Hb) as B9. pose proof (nthb_ok p 10 Hb) as B10. unfold byte_ok in B9, B10.
-  unfold prefix_lengths_valid in Hv. apply andb_true_iff in Hv. destruct Hv as [V1 V2]. apply Z.leb_le in V1, V2.
+  unfold prefix_lengths_valid in Hv. apply andb_true_iff in Hv. destruct Hv as [Hv _].
+  apply andb_true_iff in Hv. destruct Hv as [V1 V2]. apply Z.leb_le in V1, V2.
   destruct Ht as [Ht|Ht]; pose proof (pdu_ok_len p _ Hok Ht) as (H4 & H6 & _); rewrite Ht in *.
   - specialize (H4 eq_refl). change (c_IPV4_PREFIX =? c_IPV6_PREFIX) with false. change (c_IPV4_PREFIX =? c_IPV4_PREFIX) with true in *.
     rewrite bits_of_bytes_length, firstn_length, skipn_length. unfold zlen in H4. cbv iota in V1, V2. unfold byte in *.
